@@ -74,6 +74,14 @@ Theorem c11_stop_no_deadlock : forall ops s,
 Proof. exact stop_no_deadlock. Qed.
 Print Assumptions c11_stop_no_deadlock.
 
+(* no lost wake-up: whenever work is queued in a running pool, every sleeping worker has a wake-up pending (so a
+   submission is never left in the queue next to an idle worker, and a job that waits for another submission's
+   outcome is not stranded by the pool) *)
+Theorem c11_no_lost_wakeup : forall ops s i,
+  reachable ops s -> exit_ s = false -> queue s <> [] -> T s i = Some WSleep -> enabled s i = true.
+Proof. exact no_lost_wakeup. Qed.
+Print Assumptions c11_no_lost_wakeup.
+
 (* every run is finite: from a reachable state no schedule can make more than mu s steps (mu: remaining client
    programs + job bodies + queued closures + pending wake-ups + join lists) *)
 Theorem c11_runs_are_finite : forall ops s n s',
